@@ -56,13 +56,13 @@ PROPS = {
     "C10": dict(confirm_group=True, lean=["Mav.Props.C10"], groups=[("C10", sizes(60, 3000))],
                 trusted=["Go channel/select/goroutine semantics as modelled by the labelled transition system Mav/Model/Node.lean (one step per rendezvous); scheduler fairness"],
                 partial=["event sequences are observed on real runs (custom in-memory transports, TCP) and judged by the executable spec Spec.evLegal; the transition-system theorems are about the model"]),
-    "C11": dict(confirm_group=True, lean=["Mav.Props.C11"], groups=[("C11", sizes(60, 3000))],
+    "C11": dict(confirm_group=True, lean=["Mav.Props.C11"], groups=[("C11", sizes(60, 1500))],
                 trusted=["Go channel/select/goroutine semantics as modelled by Mav/Model/Node.lean; in-memory transports of the harness record write calls faithfully"]),
     "C12": dict(confirm_group=True, lean=["Mav.Props.C12"], groups=[("C12", sizes(40, 1200))],
                 crash_signatures=[("crash:pion-udp-waitgroup", r"sync: (WaitGroup is reused|WaitGroup misuse|negative WaitGroup).*pion/transport/v2/udp")],
                 trusted=["Go channel/select/goroutine semantics as modelled by Mav/Model/Node.lean; OS socket release observed by re-binding; goroutine census by runtime.Stack filtered to gomavlib / pion frames"],
                 partial=["termination of Close: proved in the model as progress (close_never_stuck: a closing node always has an enabled step that lowers the measure) plus a bound (close_bounded: at most mu(s) state-changing steps once the loop has seen terminate and the providers have returned); fairness of the Go scheduler / select towards the node loop and providers, and the return of blocked transport calls once the transport is closed, are assumptions; that Close returns within a bound, goroutine / port / connection release and the Close count of custom transports are observed on real runs"]),
-    "C13": dict(confirm_group=True, lean=["Mav.Props.C13"], groups=[("C13", sizes(30, 1500))],
+    "C13": dict(confirm_group=True, lean=["Mav.Props.C13"], groups=[("C13", sizes(30, 800))],
                 trusted=["Go channel/select/goroutine semantics as modelled by Mav/Model/Node.lean"]),
     "C14": dict(lean=["Mav.Props.C14"], groups=[("C14", sizes(30, 400))], confirm=["lifecheck ", "tnc "],
                 crash_signatures=[("crash:pion-udp-waitgroup", r"sync: (WaitGroup is reused|WaitGroup misuse|negative WaitGroup).*pion/transport/v2/udp")],
@@ -83,7 +83,7 @@ PROPS = {
                          "heartbeat spacing is observed (12.5 periods of 40-80 ms: count within [8,13], mean gap within [0.8,1.3] periods, no gap below 0.1 period), not proved"],
                 partial=["the 30 s rule is exercised for real only in the thorough tier (one 31 s scenario); in the quick tier it rests on the theorem, the regenerated constant Gen.streamRequestPeriodNs and the source pins"]),
     "C17": dict(lean=["Mav.Props.C17"], groups=[("C17", sizes(1, 1))], table_crosscheck=True, preamble=dialects_preamble,
-                trusted=["published CRC_EXTRA values are represented by the spec recipe (serialization guide) and the values pinned in the repository; the C library's tables are not available offline"]),
+                trusted=["published CRC_EXTRA values: the 138-entry table Spec.publishedCrcExtra (common.xml) written down by hand from the published values, plus the spec recipe for the rest"]),
     "C18": dict(lean=["Mav.Props.C18"], groups=[("C18", sizes(60, 1500))],
                 trusted=["encoding/xml, text/template and the Go compiler: the generated package is compiled and its behaviour observed (CRC_EXTRA, sizes, wire order through the VerifLayout hook, constants, dialect version); the abstract definition is rendered to XML by the harness",
                          "the domain is dialect sets following the MAVLink naming rules: message names [A-Z][A-Z0-9_]*, field names that are identifiers, array lengths 1..255 without leading zeros, payload of at most 255 bytes, enum values below 2^64, enum-typed fields of an integer type"],
